@@ -406,7 +406,13 @@ func (cc *Conn) doInternal(req *pool.Message) (*pool.Message, error) {
 	}
 
 	respChan := make(chan *pool.Message, 1)
-	if _, loaded := cc.tokenHandlerContainer.LoadOrStore(token.Hash(), func(_ *responsewriter.ResponseWriter[*Conn], r *pool.Message) {
+	if _, loaded := cc.tokenHandlerContainer.LoadOrStore(token.Hash(), func(w *responsewriter.ResponseWriter[*Conn], r *pool.Message) {
+		// RFC 7252 section 5.2.2: a response that arrives while the request is still being retransmitted
+		// (its acknowledgement got lost) also acknowledges the request.
+		if elem, ok := cc.midHandlerContainer.LoadAndDelete(req.MessageID()); ok {
+			elem.ReleaseMessage(cc)
+			elem.handler(w, r)
+		}
 		r.Hijack()
 		select {
 		case respChan <- r:
